@@ -2,6 +2,7 @@ package props
 
 import (
 	"fmt"
+	"strings"
 
 	"gkvverif/harness"
 )
@@ -12,6 +13,91 @@ func c15Finish(w *harness.World) {
 	w.CheckRefLive()
 	snapsFirst := harness.Choose(2, harness.ClassOp) == 1
 	w.CloseAllAndCheckRefs(snapsFirst)
+}
+
+// c15Mixes: the product of small thread programs under the counting (and
+// scrubbing) callbacks: mutator program x reader program x initial cache state.
+func c15Mixes(mon harness.Monitors, persisted bool) *WorldScenario {
+	kC := bs("c")
+	universe := [][]byte{kA, kB, kC}
+	type op struct {
+		name string
+		do   func(w *harness.World)
+	}
+	mops := []op{
+		{"Set(a)", func(w *harness.World) { w.SetItem("x", kA, 2, bs("a1")) }},
+		{"Set(c)", func(w *harness.World) { w.SetItem("x", kC, 5, bs("c1")) }},
+		{"Del(b)", func(w *harness.World) { w.Delete("x", kB) }},
+		{"Evict", func(w *harness.World) { w.Evict("x") }},
+		{"Flush", func(w *harness.World) { w.Flush() }},
+	}
+	name := "refcount-mixes-persisted"
+	desc := "initial collection {a,b} in {flushed and cached, flushed and evicted} x mutator program of 1..2 operations over {Set a (overwrite), Set c (new), Delete b, EvictSomeItems, Flush}"
+	if !persisted {
+		// nothing is ever written: no item has a file location, so nothing is
+		// evicted or re-read and cached items are only released with their nodes
+		mops = mops[:4]
+		name = "refcount-mixes"
+		desc = "initial never-flushed collection {a,b}, {without, with} an open snapshot x mutator program of 1..2 operations over {Set a (overwrite), Set c (new), Delete b, EvictSomeItems}"
+	}
+	var rops []op
+	for _, k := range []string{"get:a:v", "get:b:k", "min", "max", "asc", "desc-keys", "asc-stop0", "iter", "iter-stop0"} {
+		k := k
+		rops = append(rops, op{k, func(w *harness.World) { w.RawRead("x", k, universe) }})
+	}
+	pick := func(ops []op, maxLen int) ([]op, string) {
+		var prog []op
+		var names []string
+		for i := 0; i < maxLen; i++ {
+			alts := len(ops)
+			if i > 0 {
+				alts++
+			}
+			k := harness.Choose(alts, harness.ClassOp)
+			if i > 0 && k == len(ops) {
+				break
+			}
+			prog = append(prog, ops[k])
+			names = append(names, ops[k].name)
+		}
+		return prog, "[" + strings.Join(names, ",") + "]"
+	}
+	return &WorldScenario{Name: name, Mon: mon, Keys: universe, SigWithMix: persisted,
+		Desc: "reference counting for every mix: " + desc + " x reader program of one operation over {GetItem a with value, GetItem b key only, MinItem, MaxItem, ascending visit, descending key-only visit, visit stopped at the first item, iterator, iterator closed at the first item}; every item handed out is live when delivered and still when the reader resumes after being descheduled inside its visitor, no scrubbed byte shows, balance is zero after closing",
+		Setup: func(w *harness.World) {
+			w.SetCollection("x", "nil")
+			w.SetItem("x", kA, 2, bs("a0"))
+			w.SetItem("x", kB, 1, bs("b0"))
+			alt := harness.Choose(2, harness.ClassOp) == 1
+			if persisted {
+				w.Flush()
+				if alt {
+					w.Evict("x")
+				}
+			} else if alt {
+				w.Snapshot(-1)
+			}
+		},
+		Dynamic: func(w *harness.World) ([]func(w *harness.World), string) {
+			mp, mn := pick(mops, 2)
+			rp, rn := pick(rops, 1)
+			return []func(w *harness.World){
+				func(w *harness.World) {
+					for _, o := range mp {
+						o.do(w)
+					}
+				},
+				func(w *harness.World) {
+					for _, o := range rp {
+						o.do(w)
+					}
+				},
+			}, " mutator" + mn + " reader" + rn
+		},
+		Finish: func(w *harness.World) {
+			w.CheckRefLive()
+			w.CloseAllAndCheckRefs(true)
+		}}
 }
 
 func c15Profiles(tier string) []Profile {
@@ -81,10 +167,14 @@ func c15Profiles(tier string) []Profile {
 			w.CheckRefLive()
 			w.CloseAllAndCheckRefs(true)
 		}}
+	mp := c15Mixes(harness.Monitors{RefCount: true}, false).Profile(1)
+	mp.ShardLevel = 4
+	mpp := c15Mixes(harness.Monitors{RefCount: true}, true).Profile(1)
+	mpp.ShardLevel = 4
 	faulted := Profile{Name: "refcount-after-faults", Exec: OnlyOracles(c07ExecMon(1, 1, false, harness.Monitors{RefCount: true}), "refcount", "observe", "model"),
 		Budget: map[int]int{1: 0, 2: 0, 3: 1}, ShardLevel: 3,
 		Rule: "reference counting across failed calls: 5 initial stores x every single operation x one failing file call at every index (retried or not), then Set, Flush, full read battery, Reopen, Close; counts never negative, no use after release (released items are scrubbed); a zero balance is not demanded after a failed call"}
-	return []Profile{conc.Profile(2), faulted, p.Profile(fmt.Sprintf("every history of length <= %d over Set/Delete/Evict, GetItem (both value modes), Exist, MinItem, ascending visit, descending Ex visit with early stop, iterator with early close, key-only visits whose callback looks up another key with its value or evicts, CopyTo (two collections), Len, block and random visits, RemoveCollection, SetCollection (new/existing), Flush, Reopen, Snapshot / read / close of a snapshot, then closing snapshots and store in both orders; counting ItemAlloc/ItemAddRef/ItemDecRef callbacks: no count below zero, every item handed to a visitor or the caller and every cached item reachable from an open handle has a positive count, and after closing everything all counts are zero; an item whose count reaches zero is scrubbed (key and value overwritten) and any later reference to it is reported, so a use after release shows as a wrong result", d))}
+	return []Profile{conc.Profile(2), mp, mpp, faulted, p.Profile(fmt.Sprintf("every history of length <= %d over Set/Delete/Evict, GetItem (both value modes), Exist, MinItem, ascending visit, descending Ex visit with early stop, iterator with early close, key-only visits whose callback looks up another key with its value or evicts, CopyTo (two collections), Len, block and random visits, RemoveCollection, SetCollection (new/existing), Flush, Reopen, Snapshot / read / close of a snapshot, then closing snapshots and store in both orders; counting ItemAlloc/ItemAddRef/ItemDecRef callbacks: no count below zero, every item handed to a visitor or the caller and every cached item reachable from an open handle has a positive count, and after closing everything all counts are zero; an item whose count reaches zero is scrubbed (key and value overwritten) and any later reference to it is reported, so a use after release shows as a wrong result", d))}
 }
 
 func init() {
